@@ -261,7 +261,7 @@ func (t *StreamUnderlay) RunEventLoop(ctx context.Context) error {
 							protocol: uint8(closeSessionRequest),
 						},
 						sessionID:  das.sessionID,
-						seq:        das.unAckSeq,
+						seq:        math.MaxUint32, // not a clean close: the session state is unknown
 						statusCode: 0,
 						payloadLen: 0,
 					},
